@@ -933,65 +933,70 @@ def run(ctx):
     ctx.note("families_rejected_by_tlc", len(cands) - len(okf))
 
     # ---- 4. binding A: TLC-emitted (tree x query) cases replayed ---------------------------------
-    r = ctx.tlc("MC_Query", "MC_Query_gen.cfg" if quick else "MC_Query_gen4.cfg", workers=ncpu, env=JAVA_ENV,
-                timeout=1800, label="case generation: all trees x query universe with the model's booleans")
-    qline = [j for j in r.json_lines if "queries" in j]
-    trees = [j for j in r.json_lines if "res" in j]
-    if len(qline) != 1 or len(trees) != r.distinct:
-        raise tlc.TLCFailure("case generation: %d query lines, %d tree lines for %d states" % (len(qline), len(trees), r.distinct))
-    queries = qline[0]["queries"]
-    trees.sort(key=lambda t: (t["n"], t["par"], t["lab"]))
-    for t in trees:
-        t["nodw"] = {(a - 1, b - 1) for a, b in t["nodw"]}
-        if len(t["res"]) != len(queries):
-            raise tlc.TLCFailure("case generation: truncated line")
-    for k, fam in enumerate(fams):
-        cq = [q_map(q, lambda a: family_atom(fam, a["op"], a["t"])) for q in queries]
-        names = {vkey(fam[x]): fam[x]["name"] for x in ("p", "ra", "rb", "c", "v")}
+    def replay_gen(cfgname, label, tag):
+        r = ctx.tlc("MC_Query", cfgname, workers=ncpu, env=JAVA_ENV, timeout=1800, label=label)
+        qline = [j for j in r.json_lines if "queries" in j]
+        trees = [j for j in r.json_lines if "res" in j]
+        if len(qline) != 1 or len(trees) != r.distinct:
+            raise tlc.TLCFailure("case generation: %d query lines, %d tree lines for %d states" % (len(qline), len(trees), r.distinct))
+        queries = qline[0]["queries"]
+        trees.sort(key=lambda t: (t["n"], t["par"], t["lab"]))
+        for t in trees:
+            t["nodw"] = {(a - 1, b - 1) for a, b in t["nodw"]}
+            if len(t["res"]) != len(queries):
+                raise tlc.TLCFailure("case generation: truncated line")
+        for k, fam in enumerate(fams):
+            cq = [q_map(q, lambda a: family_atom(fam, a["op"], a["t"])) for q in queries]
+            names = {vkey(fam[x]): fam[x]["name"] for x in ("p", "ra", "rb", "c", "v")}
 
-        def cased(a, k=k, names=names, fam=fam):
-            t = a["t"]
-            base = t.split("/")[0]
-            orig = names.get(base, t)
-            if t == vkey(fam["v"], fam["val"]):
-                orig = fam["v"]["name"] + "/" + fam["val"]
-            return {"op": a["op"], "t": vary_case(orig if a["op"] != "prefix" else t, k)}
-        fam["cq_cased"] = [q_map(q, cased) for q in cq]
-    _G.update({"queries": queries, "li": LawIndex(queries), "fams": fams, "trees": trees,
-               "bykey": {(tuple(t["par"]), tuple(t["lab"])): i for i, t in enumerate(trees)}})
-    _G.pop("hcache", None)
-    reps = 1 if quick else 2
-    jobs = []
-    for rep in range(reps):
-        ids = list(range(len(trees)))
-        jobs += [(sl, ctx.seed + 7919 * rep) for sl in _slices(ids, ncpu * 2)]
-    with _pool(ncpu) as pool:
-        results = pool.map(_gen_worker, jobs)
-    nsearch = 0
-    for res in results:
-        _report(ctx, res)
-        nsearch += res["n"]
-        ctx.traces += res["sib"]
-        for s in res["samples"][:1]:
-            ctx.sample(s, cap=3)
-    ctx.traces += len(trees) * reps
-    ctx.evaluations += nsearch
-    for ti, t in enumerate(trees):
-        base = ti * 4096
-        ctx.nontrivial.update(base + i for i, b in enumerate(t["res"]) if b)
-    # vacuity: the antecedents of the laws occur among the emitted cases
-    li = _G["li"]
-    hits = {"and_matches": sum(1 for t in trees for i, _l, _r, _s in li.ands if t["res"][i]),
-            "or_matches": sum(1 for t in trees for i, _l, _r in li.ors if t["res"][i]),
-            "and_of_atoms_without_witness_pairs": sum(len(t["nodw"]) for t in trees),
-            "associativity_pairs": len(li.assoc), "symmetric_pairs": sum(1 for a in li.ands if a[3] is not None),
-            "annotations_reordered": sum(r["sib"] for r in results)}
-    ctx.note("law_antecedent_hits", hits)
-    if not all(hits.values()):
-        raise tlc.TLCFailure("vacuous law check: %s" % hits)
-    ctx.note("gen_trees", len(trees))
-    ctx.note("gen_queries", len(queries))
-    ctx.note("gen_searches_on_code", nsearch)
+            def cased(a, k=k, names=names, fam=fam):
+                t = a["t"]
+                base = t.split("/")[0]
+                orig = names.get(base, t)
+                if t == vkey(fam["v"], fam["val"]):
+                    orig = fam["v"]["name"] + "/" + fam["val"]
+                return {"op": a["op"], "t": vary_case(orig if a["op"] != "prefix" else t, k)}
+            fam["cq_cased"] = [q_map(q, cased) for q in cq]
+        _G.update({"queries": queries, "li": LawIndex(queries), "fams": fams, "trees": trees,
+                   "bykey": {(tuple(t["par"]), tuple(t["lab"])): i for i, t in enumerate(trees)}})
+        _G.pop("hcache", None)
+        reps = 1 if quick else 2
+        jobs = []
+        for rep in range(reps):
+            ids = list(range(len(trees)))
+            jobs += [(sl, ctx.seed + 7919 * rep) for sl in _slices(ids, ncpu * 2)]
+        with _pool(ncpu) as pool:
+            results = pool.map(_gen_worker, jobs)
+        nsearch = 0
+        for res in results:
+            _report(ctx, res)
+            nsearch += res["n"]
+            ctx.traces += res["sib"]
+            for s in res["samples"][:1]:
+                ctx.sample(s, cap=3)
+        ctx.traces += len(trees) * reps
+        ctx.evaluations += nsearch
+        for ti, t in enumerate(trees):
+            ctx.nontrivial.update("%s%d" % (tag, ti * 4096 + i) for i, b in enumerate(t["res"]) if b)
+        # vacuity: the antecedents of the laws occur among the emitted cases
+        li = _G["li"]
+        hits = {"and_matches": sum(1 for t in trees for i, _l, _r, _s in li.ands if t["res"][i]),
+                "or_matches": sum(1 for t in trees for i, _l, _r in li.ors if t["res"][i]),
+                "and_of_atoms_without_witness_pairs": sum(len(t["nodw"]) for t in trees),
+                "associativity_pairs": len(li.assoc), "symmetric_pairs": sum(1 for a in li.ands if a[3] is not None),
+                "annotations_reordered": sum(r["sib"] for r in results)}
+        ctx.note("law_antecedent_hits" + tag, hits)
+        if not tag and not all(hits.values()):
+            raise tlc.TLCFailure("vacuous law check: %s" % hits)
+        ctx.note("gen_trees" + tag, len(trees))
+        ctx.note("gen_queries" + tag, len(queries))
+        ctx.note("gen_searches_on_code" + tag, nsearch)
+
+    replay_gen("MC_Query_gen.cfg" if quick else "MC_Query_gen4.cfg",
+               "case generation: all trees x query universe with the model's booleans", "")
+    if quick:
+        # group operators need a group inside a group next to a tag: all 4-node trees x the group-operator universe
+        replay_gen("MC_Query_gengrp.cfg", "case generation: 4-node trees x group-operator queries", "_grp")
 
     # ---- 5. binding A/B: random deep cases over the real vocabulary, judged by TLC --------------
     ndeep = 600 if quick else 9000
